@@ -90,7 +90,7 @@ func evalC01(c *Ctx, cs *Case) {
 	merged := model.Merge(f)
 	nontrivial := merged.Size() >= 3 && (merged.Depth() >= 2 || merged.Size() != f.Size())
 	r := gen.New(cs.Seed, 9)
-	branches := []int{0, 1, 2, 3, 4, 5}
+	branches := allBranches()
 	if cs.Kind != "exhaustive" {
 		branches = []int{0, 3, r.Intn(len(BranchTuples))}
 	}
